@@ -41,11 +41,15 @@ class TreeObserver:
             return
         if op["op"] not in ("tree", "arr"):
             return
+        if path.endswith(".re"):
+            return  # a re-entrant nested check (made by a registered flatten function) is judged with the check it interrupts
+        self.re_out = None
         if op["op"] == "tree" and not run.frames:
             return  # the PyTree properties are stated for checks inside a checking context
         self.fallback = False
         with seams.quiet():
             snap, ctx = self._ctx(run)
+            self._structs0 = dict(ctx.structs)
             if not snap.get("wb"):
                 # structure bindings cannot be re-synchronised from print_bindings() text: without the white-box memo the model
                 # runs open loop (its own context per block); a block whose model state became uncertain is no longer judged
@@ -86,10 +90,40 @@ class TreeObserver:
             if self.fb_stack:
                 self.fb_stack.pop()
             return
+        if op["op"] in ("tree", "arr") and path.endswith(".re"):
+            self.re_out = (op, out)
+            return
         if op["op"] not in ("tree", "arr") or self.pending is None:
             return
         snap0, outs, post, in_ctx, fired0 = self.pending
         self.pending = None
+        if op.get("reentry") and getattr(self, "re_out", None) is not None:
+            # the registered node's flatten function checked another tree while THIS check was flattening.  Only generated for
+            # plain leaf types (no jaxtyping check runs between the two, so nothing can roll the nested binding back) and only one
+            # thing is demanded: if both are accepted, one assignment of structures satisfies both
+            self.stats.inc("reentrant_checks")
+            nop, nout = self.re_out
+            if self.fb_stack:
+                self.fb_stack[-1]["certain"] = False
+            if in_ctx and out is True and nout is True and snap0.get("wb") and len(seams.state().fired) == fired0:
+                ctx0 = model.Ctx.from_snapshot(snap0, self._args(run))
+                ctx0.structs = dict(getattr(self, "_structs0", {}) or {})
+                ospec, nspec = self.scn["anns"][op["ann"]], self.scn["anns"][nop["ann"]]
+
+                def both(s1, v1, s2, v2):
+                    o1, p1 = self.tm.match_tree(s1, v1, ctx0)
+                    if "accept" not in o1 or p1 is None:
+                        return len(o1) > 1
+                    o2, _ = self.tm.match_tree(s2, v2, p1)
+                    return "accept" in o2
+
+                self.stats.inc("reentrant_both_accepted")
+                if not both(ospec, op["val"], nspec, nop["val"]) and not both(nspec, nop["val"], ospec, op["val"]) and len(self.viol) < 3:
+                    self.viol.append(violation(self.pid, "reentrant-consistency", {
+                        "path": path, "outer": [self.describe(op["ann"]), op["val"]], "nested_during_flatten": [self.describe(nop["ann"]), nop["val"]],
+                        "what": "both checks were accepted in one context although no single assignment of structures satisfies both",
+                        "bindings_before": snap0.get("top")}, sig={"oracle": "reentrant-consistency", "shape": self.ann_shape(op["ann"])}))
+            return
         if len(seams.state().fired) != fired0:
             self.stats.inc("ops_with_fault_fired")
             if self.fb_stack:
